@@ -20,7 +20,10 @@ import time
 SETTLE = 0.03
 READ_TIMEOUT = 0.05
 
-PEER_STEPS = ('peerSend', 'peerFin', 'peerRst:linger', 'peerRst:unread')
+# (added) 'peerPart': the peer sends the next byte(s) of a line WITHOUT its terminator; the following 'peerSend' sends the rest
+# and the terminator.  With `readline` calls in between (each returns None after READ_TIMEOUT, the inter-byte time-out of
+# these runs) this is a line that arrives in several segments separated by pauses longer than the inter-byte time-out.
+PEER_STEPS = ('peerSend', 'peerPart', 'peerFin', 'peerRst:linger', 'peerRst:unread')
 CALL_STEPS = ('readline', 'send', 'shutdown', 'disconnect')
 
 
@@ -79,13 +82,22 @@ def run_conn_script(script):
         conn.connection.settimeout(READ_TIMEOUT)
         peer_up = True
         local_end = False       # after shutdown() / disconnect() nothing the peer sends is received any more
+        rest = None             # bytes of the line begun by 'peerPart' that are still to be sent
         for step in script:
             if step in PEER_STEPS:
-                if not peer_up or (step == 'peerSend' and local_end):
+                if not peer_up or (step in ('peerSend', 'peerPart') and local_end):
                     continue
-                if step == 'peerSend':
+                if step == 'peerPart':
+                    if rest is None:
+                        rest = ('l%d' % len(lines)).encode()
+                    if len(rest) > 1:
+                        peer.sendall(rest[:1])
+                        rest = rest[1:]
+                    events.append(['peerPart'])
+                elif step == 'peerSend':
                     lines.append('l%d' % len(lines))
-                    peer.sendall(lines[-1].encode() + b'\n')
+                    peer.sendall((lines[-1].encode() if rest is None else rest) + b'\n')
+                    rest = None
                     events.append(['peerSend'])
                 elif step == 'peerFin':
                     peer.close()
@@ -139,9 +151,11 @@ def run_fake_script(script):
         local_end = False
         for step in script:
             if step in PEER_STEPS:
-                if not peer_up or (step == 'peerSend' and local_end):
+                if not peer_up or (step in ('peerSend', 'peerPart') and local_end):
                     continue
-                if step == 'peerSend':
+                if step == 'peerPart':
+                    events.append(['peerPart'])     # the stand-in hands out whole lines: an incomplete one is not visible
+                elif step == 'peerSend':
                     lines.append('l%d' % len(lines))
                     conn._emit(s.now, lines[-1], None)
                     events.append(['peerSend'])
